@@ -251,7 +251,7 @@ func snapPath(p string) pathSnap {
 			names = append(names, e.Name())
 		}
 		sort.Strings(names)
-		s.content = []byte(strings.Join(names, "\x00"))
+		_ = names // a directory stays "as before" as long as it is a directory; its entries are compared by walk
 	} else {
 		s.content, _ = os.ReadFile(p)
 	}
@@ -277,7 +277,11 @@ func targetRel(root, filename string) string {
 		wd, _ := os.Getwd()
 		p = filepath.Join(wd, p)
 	}
-	rel, err := filepath.Rel(root, filepath.Clean(p))
+	p = filepath.Clean(p)
+	if d, err := filepath.EvalSymlinks(filepath.Dir(p)); err == nil {
+		p = filepath.Join(d, filepath.Base(p))
+	}
+	rel, err := filepath.Rel(root, p)
 	if err != nil {
 		return ""
 	}
@@ -311,7 +315,7 @@ func startReader(path string, old pathSnap, newcs [][]byte) *reader {
 			rd.polls++
 			f, err := os.Open(path)
 			if err != nil {
-				if errors.Is(err, os.ErrNotExist) {
+				if errors.Is(err, os.ErrNotExist) || errors.Is(err, syscall.ENOTDIR) || errors.Is(err, syscall.EINVAL) || errors.Is(err, syscall.ENAMETOOLONG) {
 					if exists {
 						rd.bad |= badVanished
 					}
@@ -685,6 +689,9 @@ func runC19(c *cli.Ctx) error {
 		os.RemoveAll(runRoot)
 	}()
 	os.Chmod(runRoot, 0o755)
+	if rr, err := filepath.EvalSymlinks(runRoot); err == nil {
+		runRoot = rr
+	}
 	r := emit.NewRng(c.Seed)
 
 	if err := streamSeq(c, r.Fork(), runRoot); err != nil {
@@ -728,7 +735,7 @@ func streamSeq(c *cli.Ctx, r *emit.Rng, runRoot string) error {
 	if syscall.Getrlimit(syscall.RLIMIT_FSIZE, &lim) != nil {
 		rlimitOK = false
 	}
-	n := 420 * c.Scale
+	n := 1000 * c.Scale
 	for i := 0; i < n; i++ {
 		base := baseNames[r.Intn(len(baseNames))]
 		if r.Chance(1, 2) {
